@@ -560,8 +560,8 @@ ALL = ALL + [ValueClassModel, ItertoolsModel, ComprehensionModel]
 
 
 def _late():
-    from .streams import StreamModel, TFModel
-    return [TFModel, StreamModel]
+    from .streams import StreamModel, TFModel, OpaqueLibModel
+    return [TFModel, StreamModel, OpaqueLibModel]
 
 
 # ---------------------------------------------------------------------------
